@@ -7,6 +7,7 @@ import (
 	"sort"
 	"strconv"
 	"strings"
+	"sync"
 	"time"
 )
 
@@ -141,8 +142,10 @@ type UnitsDefinition struct {
 	BaseUnitValue          *UnitDefinition           `json:"base_unit"`
 	MultipliersValue       map[int64]*UnitDefinition `json:"multipliers"`
 	sortedMultipliersCache []int64
+	sortedMultipliersOnce  sync.Once
 	reCache                *regexp.Regexp
 	reSubExpNames          map[string]int
+	reCacheOnce            sync.Once
 }
 
 func (u *UnitsDefinition) BaseUnit() *UnitDefinition {
@@ -218,7 +221,9 @@ func (u *UnitsDefinition) FormatLongFloat(data float64) string {
 }
 
 func (u *UnitsDefinition) getSortedMultipliersCache() []int64 {
-	if u.sortedMultipliersCache == nil {
+	// Unit definitions are shared (the built-in ones are package globals), so the lazily built caches must
+	// be safe to fill from several goroutines at once.
+	u.sortedMultipliersOnce.Do(func() {
 		var multipliers []int64
 		for multiplier := range u.MultipliersValue {
 			multipliers = append(multipliers, multiplier)
@@ -227,7 +232,7 @@ func (u *UnitsDefinition) getSortedMultipliersCache() []int64 {
 			return multipliers[i] > multipliers[j]
 		})
 		u.sortedMultipliersCache = multipliers
-	}
+	})
 	return u.sortedMultipliersCache
 }
 
@@ -238,9 +243,7 @@ func (u *UnitsDefinition) parse(data string) (any, error) {
 			Message: "Empty string cannot be parsed as " + u.BaseUnitValue.NameLongPlural(),
 		}
 	}
-	if u.reCache == nil {
-		u.updateReCache()
-	}
+	u.reCacheOnce.Do(u.updateReCache)
 	match := u.reCache.FindStringSubmatch(data)
 	if match == nil {
 		return u.buildUnitParseError(data)
